@@ -7,7 +7,7 @@ SRCS = ['engines/bitmapx.c', 'engines/bitmapx_ba.c', 'engines/bitmapx_32.c']
 
 def build_harness():
     S = build('asan')
-    out = os.path.join(VERIF, 'build/bin/bitmapx')
+    out = os.path.join(BUILD, 'bin/bitmapx')
     os.makedirs(os.path.dirname(out), exist_ok=True)
     cmd = ['gcc', '-O1', '-g', '-fsanitize=address', '-fno-omit-frame-pointer', '-w', '-I%s/lib' % S, '-I%s/lib/ext2fs' % S, '-o', out] + \
           [os.path.join(VERIF, x) for x in SRCS] + ['%s/lib/ext2fs/libext2fs.a' % S, '%s/lib/et/libcom_err.a' % S, '-lpthread']
